@@ -6,6 +6,7 @@ import (
 	"os"
 	"path/filepath"
 	"sort"
+	"strings"
 )
 
 // cmdLearn (maintenance tool, never run by a check): runs a property's check over a range of seeds with the current known
@@ -27,12 +28,17 @@ func cmdLearn(args []string) int {
 		r := NewReport(prop, "quick", uint64(s))
 		fn(r, loadKnown())
 		for _, v := range r.Violations {
-			a, _ := v.Replay["attrs"].(map[string]string)
-			if a == nil {
+			sig, _ := v.Replay["learn_signature"].(map[string]string)
+			if sig == nil {
 				fmt.Println("UNKEYED:", v.What)
 				continue
 			}
-			k := a["strategy"] + "|" + a["pf"]
+			var ks []string
+			for k, x := range sig {
+				ks = append(ks, k+"="+x)
+			}
+			sort.Strings(ks)
+			k := strings.Join(ks, ";")
 			if groups[k] == nil {
 				groups[k] = &ent{ex: v.Replay}
 			}
@@ -47,14 +53,30 @@ func cmdLearn(args []string) int {
 	var out []Finding
 	for _, k := range keys {
 		g := groups[k]
-		a := g.ex["attrs"].(map[string]string)
-		f := Finding{ID: fmt.Sprintf("%s-e2e-%s-%s", prop, a["strategy"], a["pf"]), Property: prop, Status: "open",
-			What: fmt.Sprintf("under strategy %s, patterns/inputs with primary feature %q disagree with regexp, e.g. %s of %q: coregex=%.60v regexp=%.60v",
-				a["strategy"], a["pf"], g.ex["api"], g.ex["pattern"], g.ex["coregex"], g.ex["regexp"]),
-			Signature: map[string]string{"strategy": a["strategy"], "pf": a["pf"]},
+		sig := g.ex["learn_signature"].(map[string]string)
+		id := prop + "-e2e"
+		for _, f := range []string{"config", "strategy", "pf"} {
+			if sig[f] != "" {
+				id += "-" + sig[f]
+			}
+		}
+		if len(sig) == 1 && sig["pf"] == "ill-formed-haystack" {
+			id = prop + "-e2e-illformed"
+		}
+		f := Finding{ID: id, Property: prop, Status: "open",
+			What:      fmt.Sprintf("disagreement class %s, e.g. %v of %q: coregex=%.60v expected=%.60v", k, g.ex["api"], g.ex["pattern"], g.ex["coregex"], g.ex["regexp"]),
+			Signature: sig,
 			Example:   map[string]string{"pattern": fmt.Sprint(g.ex["pattern"]), "haystack_hex": fmt.Sprint(g.ex["haystack_hex"]), "api": fmt.Sprint(g.ex["api"])}}
 		if lg, _ := g.ex["longest"].(bool); lg {
 			f.Example["longest"] = "true"
+		}
+		if c, ok := g.ex["config"].(string); ok {
+			f.Example["config"] = c
+			f.Example["kind"] = "config"
+		}
+		if rel, ok := g.ex["relation"].(string); ok {
+			f.Example["kind"] = "relation"
+			f.Example["relation"] = rel
 		}
 		out = append(out, f)
 		fmt.Printf("%4d %s\n", g.n, k)
